@@ -71,7 +71,7 @@ CASES = [
     ("lockexpr", "pub struct G { pub st: Mutex<S> }\nimpl G { fn get(&self) -> MutexGuard<'_, S> { self.st.lock().expect(\"l\") }\n fn f(&self) -> u64 { let s = self.get(); s.a + self.st.lock().unwrap().a } }",
      ("expect", ["let s := (G.get self)", "Rs.uadd Rs.U64_MAX s.a self.st.a"]), ("G", "f")),
     ("extfield", "pub struct C<L> { pub local: L, pub n: u64 }\nimpl<L> C<L> { fn f(&self, k: &str) -> Result<u64, Error> { let v = self.local.get_version(k)?; Ok(v.unwrap_or(0) + self.n) } }",
-     ("expect", ["(ext_local_get_version : L → String → Rs.M (Option Nat))", "let v ← ext_local_get_version self.«local» k"]), ("C", "f"),
+     ("expect", ["(ext_local_get_version : L → String → (Rs.M (Option Nat)))", "let v ← ext_local_get_version self.«local» k"]), ("C", "f"),
      {"local.get_version": {"params": ["&str"], "ret": "Result<Option<u64>, Error>"}}),
     ("litfold", "fn f(x: u64) -> u64 { x << 8 * 7 }", ("expect", ["Rs.ushl 64 x 56"])),
     ("entry2", "pub struct H { pub p: K2, pub v: u64 }\nfn f(hs: &[H]) -> BTreeMap<K2, u64> { let mut m = BTreeMap::new(); for h in hs { m.entry(h.p).and_modify(|e| *e += h.v).or_insert(h.v); } m }",
